@@ -46,6 +46,8 @@ let check (case : Sexp.t) : unit =
     let fuel = nat_of_int (List.length arena + 1) in
     (match ptree_of t, dabs fuel arena (nat_of_int root) with
      | Some pt, Some dt ->
+       (* hypotheses of C09_generator_refines_spec (the other one is dabs = Some, matched above) *)
+       if ginvb arena (nat_of_int root) then bump "ginv_holds" else bump "ginv_fails";
        let script = List.map (function Atom "N" -> Next | _ -> Skip) sc in
        let nskips = List.length (List.filter (fun c -> c = Skip) script) in
        bump_by "skips" nskips;
